@@ -22,13 +22,13 @@ EXPLANATION = (
     "point' (equivalently: no trace prefix contains the ack without its point) are checked on the recorded event order."
 )
 ASSUMPTIONS = [
-    "hooks do not raise (not in the property's outcome list)",
+    "hooks do not raise, except a raising post_save hook (handled like a backend failure by the code)",
     "thread/process pool execution of sync tasks is replaced by an inline executor",
     "interleavings are explored at the granularity of environment suspension points (task body, result backend, async ack)",
 ]
 TRUSTED = ["CPython asyncio (real, on a virtual clock)", "vt.sym explorer", "recording stubs in vt/props/_recv.py"]
 BOUNDS = {"messages": "1 (all configurations); 2 concurrent (2 outcomes quick / all 6 thorough); 3 concurrent (thorough, reduced)", "middlewares": "<= 1", "timer ticks": "<= 6"}
-REQUIRED_COVERS = ["when_received", "when_executed", "when_saved", "async_ack", "sync_ack", "timeout_fired", "no_result", "backend_failed", "pair_interleaved"]
+REQUIRED_COVERS = ["when_received", "when_executed", "when_saved", "async_ack", "sync_ack", "timeout_fired", "no_result", "backend_failed", "pair_interleaved", "post_save_raises", "same_task_id"]
 
 
 def cases(tier: str) -> List[Any]:
@@ -41,6 +41,9 @@ def cases(tier: str) -> List[Any]:
             for o0 in pair_out:
                 out.append({"n": 2, "ack": ack, "async_ack": async_ack, "target": "async", "outcome0": o0,
                             "timeout_label0": False, "timeout_label1": False, "pair_outcomes": pair_out})
+            # two overlapping deliveries of the same task id (a redelivery / duplicate)
+            out.append({"n": 2, "ack": ack, "async_ack": async_ack, "target": "async", "outcome0": "return", "same_id": True,
+                        "timeout_label0": False, "timeout_label1": False, "backend_fail0": False, "backend_fail1": False, "pair_outcomes": ("return", "raise_exc")})
             if tier == "thorough":
                 for o0 in ("return", "raise_exc", "timeout"):
                     out.append({"n": 3, "ack": ack, "async_ack": async_ack, "target": "async", "outcome0": o0, "timeout_label0": False,
@@ -48,8 +51,15 @@ def cases(tier: str) -> List[Any]:
     return out
 
 
+def _mentions(res: Any, i: int) -> bool:
+    if not res.is_err:
+        return tuple(res.return_value or ()) == ("value", i) or tuple(res.return_value or ()) == ("late", i)
+    return str(i) in str(getattr(res.error, "args", ""))
+
+
 def check_ack(c: sym.Ctx, lab: Any, i: int, ack: str) -> None:
-    tid = f"id{i}"
+    same = bool(lab.spec.get("same_id"))
+    tid = "id0" if same else f"id{i}"
     done = [e for e in lab.ev if e[0] == "cb_done" and e[1] == i]
     c.check(bool(done) and done[0][2] is None, "callback_completes", msg=i, done=done)
     calls, effs = lab.count("ack_call", i), lab.count("ack", i)
@@ -65,9 +75,10 @@ def check_ack(c: sym.Ctx, lab: Any, i: int, ack: str) -> None:
     elif ack == "when_executed":
         c.check((start < 0 or end >= 0) and pos > end, "ack_when_executed_after_task_end", msg=i, pos=pos, end=end)
     else:
-        sb = lab.index("set_result", "begin", tid)
-        if sb >= 0:
-            fin = max(lab.index("set_result", "end", tid), lab.index("set_result", "raise", tid))
+        begins = [e for e in lab.ev if e[:3] == ("set_result", "begin", tid) and (not same or _mentions(e[3], i))]
+        if begins:
+            seq = begins[0][4]
+            fin = max(lab.index("set_result", "end", tid, seq), lab.index("set_result", "raise", tid, seq))
             c.check(fin >= 0 and pos > fin, "ack_when_saved_after_save_attempt", msg=i, pos=pos, fin=fin)
         else:
             c.check((start < 0 or end >= 0) and pos > end, "ack_when_saved_after_task_end_when_skipped", msg=i)
@@ -83,6 +94,10 @@ def harness(c: sym.Ctx, case: Dict[str, Any]) -> None:
         spec["mws"] = []
     else:
         spec["mws"] = [{"pre_execute": "sync", "post_execute": "sync", "post_save": "sync", "on_error": "sync"}] if c.flag("with_mw") else []
+        if spec["mws"] and c.flag("post_save_hook_raises"):
+            # a failing post_save hook is handled like a failing backend (logged, swallowed): still exactly one ack
+            spec["raising_hook"] = "post_save"
+            c.cover("post_save_raises")
     lab = _cb.run(c, spec, n_msgs=n)
     c.cover(spec["ack"])
     c.cover("async_ack" if spec["async_ack"] else "sync_ack")
@@ -93,6 +108,8 @@ def harness(c: sym.Ctx, case: Dict[str, Any]) -> None:
     for i in range(n):
         if spec.get(f"outcome{i}") == "no_result":
             c.cover("no_result")
+    if spec.get("same_id"):
+        c.cover("same_task_id")
     if n == 2:
         s0, e0, s1 = lab.index("task_start", 0), lab.index("task_end", 0), lab.index("task_start", 1)
         if s0 < s1 < e0:
